@@ -1342,3 +1342,98 @@ def dec_header_ops(sx):
     start, steps = sx
     return {"start": d_header(start),
             "steps": [{"exc": (d_exn(e[0]) if e else None), "h": d_header(h)} for e, h in steps]}
+
+
+# ------------------------------------------------------------------ LineReader / from_line_reader
+def impl_line_reader(lines, mode, reads, last_eol=True):
+    """the lines joined with LF in an io.StringIO, LineReader on it, MafHeader.from_line_reader"""
+    ensure_repo()
+    from maflib.header import MafHeader
+    from maflib.util import LineReader
+    text = "\n".join(lines) + ("\n" if (lines and last_eol) else "")
+    lr = LineReader(io.StringIO(text))
+    with LogCapture() as cap:
+        try:
+            h = MafHeader.from_line_reader(lr, validation_stringency=py_mode(mode))
+            res = ["ok", c_header(h)]
+        except Exception as e:  # noqa
+            res = ["exc", c_exn(e)]
+        head = {"log": cap.take(), "res": res}
+    out = {"header": head, "lineno": lr.line_number(), "peek": lr.peek_line(), "reads": []}
+    for _ in range(reads):
+        out["reads"].append([lr.read_line(), lr.line_number()])
+    return out
+
+
+def wire_line_reader(lines, mode, reads, last_eol=True):
+    ensure_repo()
+    reg = [[S(v), S(a), B(nr), ([[]] if nr else [])] for (v, a, nr, _) in registry()]
+    raw = [l + "\n" for l in lines]
+    if raw and not last_eol:
+        raw[-1] = lines[-1]
+        if raw[-1] == "":
+            raw = raw[:-1]          # "a\n" + "" : the handle ends after the last terminator
+    return [7, m_mode(mode), [S(l) for l in raw], reg, reads]
+
+
+def dec_line_reader(sx):
+    head, no, peek, reads = sx
+    return {"header": d_out(head, d_header), "lineno": no, "peek": U(peek), "reads": [[U(l), n] for l, n in reads]}
+
+
+# ------------------------------------------------------------------ from_defaults / from_reader with arguments
+def _so_obj(so):
+    """so: None | ["name", text] | ["inst", name, own contigs]"""
+    from maflib.sort_order import SortOrder
+    if so is None:
+        return None
+    if so[0] == "name":
+        return so[1]
+    cls = SortOrder.find(so[1])
+    if so[2] and so[1] in ("Coordinate", "BarcodesAndCoordinate"):
+        return cls(contigs=list(so[2]))
+    return cls()
+
+
+def impl_derive_args(src, version, annotation, so, contigs):
+    """src None: MafHeader.from_defaults(...); else the pragma lines of a reader: MafHeader.from_reader(reader, ...)"""
+    ensure_repo()
+    from maflib.header import MafHeader
+    from maflib.reader import MafReader
+    kw = dict(version=version, annotation=annotation, sort_order=_so_obj(so),
+              contigs=(list(contigs) if contigs is not None else None))
+    out = {}
+    try:
+        if src is None:
+            h = MafHeader.from_defaults(**kw)
+        else:
+            rd = MafReader(lines=list(src) + ["c1\tc2"], validation_stringency=py_mode("Silent"))
+            before = str(rd.header())
+            out["_src_before"] = before.split("\n") if before else []
+            try:
+                h = MafHeader.from_reader(rd, **kw)
+            finally:
+                after = str(rd.header())
+                out["_src_after"] = after.split("\n") if after else []
+        out["res"] = ["ok", c_header(h)]
+    except Exception as e:  # noqa
+        out["res"] = ["exc", c_exn(e)]
+    return out
+
+
+def wire_derive_args(src, version, annotation, so, contigs):
+    ensure_repo()
+    reg = [[S(v), S(a), B(nr), ([[]] if nr else [])] for (v, a, nr, _) in registry()]
+    if so is None:
+        sw = []
+    elif so[0] == "name":
+        sw = [[0, S(so[1])]]
+    else:
+        own = list(so[2]) if (so[2] and so[1] in ("Coordinate", "BarcodesAndCoordinate")) else []
+        sw = [[1, S(so[1]), [S(c) for c in own]]]
+    return [8, OPT(src, lambda ls: [S(l) for l in ls]), reg, OPT(version, S), OPT(annotation, S), sw,
+            OPT(contigs, lambda cs: [S(c) for c in cs])]
+
+
+def dec_derive_args(sx):
+    return {"res": d_res(sx, d_header)}
